@@ -226,7 +226,8 @@ def ast_parse_select_expression_to_column_infos(select_expression):
         raise RbqlParsingError('Unable to parse SELECT expression (error code #119): "{}"'.format(select_expression)) # This can be triggered with `SELECT a = 100`
     root = children[0]
     if isinstance(root, ast.Tuple):
-        column_expression_trees = root.elts
+        # `a1, a2` are two output columns but `(a1, a2)` is a single one (its value is a tuple): only a list display can tell them apart
+        column_expression_trees = ast.parse('[' + select_expression + ']').body[0].value.elts
         column_infos = [column_info_from_node(ct) for ct in column_expression_trees]
     else:
         column_infos = [column_info_from_node(root)]
